@@ -9,32 +9,31 @@ package stdlib_contracts
 //@ assumed
 //@ requires len(b) >= 2
 //@ modifies b[0:2]
-//@ ensures b[0] == v % 256 && b[1] == v / 256
+//@ ensures b[0] + b[1]*256 == v
 
 //@ func (littleEndian).PutUint32
 //@ assumed
 //@ requires len(b) >= 4
 //@ modifies b[0:4]
-//@ ensures b[0] == v % 256 && b[1] == (v / 256) % 256 && b[2] == (v / 65536) % 256 && b[3] == v / 16777216
+//@ ensures b[0] + b[1]*256 + b[2]*65536 + b[3]*16777216 == v
 
 //@ func (littleEndian).PutUint64
 //@ assumed
 //@ requires len(b) >= 8
 //@ modifies b[0:8]
-//@ ensures b[0] == v % 256 && b[1] == (v / 256) % 256 && b[2] == (v / 65536) % 256 && b[3] == (v / 16777216) % 256
-//@ ensures b[4] == (v / 4294967296) % 256 && b[5] == (v / 1099511627776) % 256 && b[6] == (v / 281474976710656) % 256 && b[7] == v / 72057594037927936
+//@ ensures b[0] + b[1]*256 + b[2]*65536 + b[3]*16777216 + b[4]*4294967296 + b[5]*1099511627776 + b[6]*281474976710656 + b[7]*72057594037927936 == v
 
 //@ func (bigEndian).PutUint16
 //@ assumed
 //@ requires len(b) >= 2
 //@ modifies b[0:2]
-//@ ensures b[1] == v % 256 && b[0] == v / 256
+//@ ensures b[1] + b[0]*256 == v
 
 //@ func (bigEndian).PutUint32
 //@ assumed
 //@ requires len(b) >= 4
 //@ modifies b[0:4]
-//@ ensures b[3] == v % 256 && b[2] == (v / 256) % 256 && b[1] == (v / 65536) % 256 && b[0] == v / 16777216
+//@ ensures b[3] + b[2]*256 + b[1]*65536 + b[0]*16777216 == v
 
 //@ func (littleEndian).Uint16
 //@ assumed
